@@ -175,7 +175,7 @@ func postfixChains(w *eng.W, leg string, depth int, f func(leg string, src []byt
 	bases := []string{"a", "(a)", "[a]", "1", "'s'", "-a", "typeof a"}
 	type pf struct{ a, b string } // a GAP2 b ; b may be empty
 	ops := []pf{{".", "x"}, {"!.", "x"}, {"(", ")"}, {"(y", ")"}, {".", "typeof"}}
-	gaps := []string{"", " ", "\n", " \n "}
+	gaps := []string{"", " ", "\n", " \n ", "\u2028", "\u0085", "\r"}
 	inner := []string{"", "\n"}
 	// one op instance = op x gap-before x inner-gap
 	type inst struct{ s string }
